@@ -169,12 +169,22 @@ def facts_for(config, repo='/repo', target_dir=None, log=None):
 
 def prune(config, tag, keep, n=3):
     ds = [d for d in glob.glob(os.path.join(FACTS, '%s-%s-*' % (config, tag))) if os.path.isdir(d)]
-    ds.sort(key=os.path.getmtime, reverse=True)
+
+    def _mt(d):
+        try:
+            return os.path.getmtime(d)
+        except OSError:
+            return 0
+    ds.sort(key=_mt, reverse=True)
     for d in ds[n:]:
         if d != keep:
             shutil.rmtree(d, ignore_errors=True)
     for d in glob.glob(os.path.join(FACTS, 'tmp-*')):
-        if time.time() - os.path.getmtime(d) > 3600:
+        try:
+            old = time.time() - os.path.getmtime(d) > 3600
+        except OSError:      # removed by its owner (a concurrent extraction) in the meantime
+            continue
+        if old:
             shutil.rmtree(d, ignore_errors=True)
 
 
